@@ -104,3 +104,7 @@ mod tests {
         }
     }
 }
+
+#[cfg(feature = "pendulum_project_ntpd_rs_verif")]
+#[path = "/verif/hooks/ntp-proto/cookiestash.rs"]
+pub mod verif_hooks;
